@@ -5,6 +5,7 @@ pub mod aio;
 pub mod fuzz;
 pub mod networld;
 pub mod proc;
+pub mod quic;
 pub mod logcap;
 pub mod panics;
 pub mod watchdog;
